@@ -1,7 +1,6 @@
 //! The program DSL: a simulation run is data (generated, shrunk, serialised, replayed).
 use serde::{Deserialize, Serialize};
 
-pub const NSLOT: usize = 4;
 pub const DRIVER: u8 = 0xFF;
 
 pub type Slot = u8;
@@ -289,4 +288,3 @@ pub fn uid(issuer: u8, run: u32, idx: usize) -> u32
 {
     ((issuer as u32) << 16) | ((run & 0xFF) << 8) | (idx as u32 & 0xFF)
 }
-pub fn uid_parts(uid: u32) -> (u8, u32, usize) { ((uid >> 16) as u8, (uid >> 8) & 0xFF, (uid & 0xFF) as usize) }
